@@ -173,7 +173,8 @@ def run(ctx):
     # every leg must have been exercised: a clause that silently drops out is not a pass
     if not ctx.replay:
         legs = {"repetitions": "evaluations", "rebuilds": "rebuilds", "reloads": "reloads", "exportnetwork-files": "networkfiles",
-                "histories": "histories", "interleaved-formats": "interleaves", "boundary-resaves": "boundaries"}
+                "histories": "histories", "interleaved-formats": "interleaves", "boundary-resaves": "boundaries",
+                "shared-writer-saves": "sharedwrites", "cold-exportnetwork-files": "coldfiles"}
         any_new = any(not any(o["signature"] == "c15-" + k for o in ctx.known_open) for s_ in summaries.values() for k in s_["propfail"])
         for leg, key in sorted(legs.items()):
             for procs, s_ in sorted(summaries.items()):
@@ -197,6 +198,8 @@ def run(ctx):
         "cross_process_comparisons": cross,
         "export_network_files_compared": sum(s.get("networkfiles", 0) for s in summaries.values()),
         "history_comparisons": sum(s.get("histories", 0) for s in summaries.values()),
+        "shared_writer_saves": sum(s.get("sharedwrites", 0) for s in summaries.values()),
+        "cold_export_network_files": sum(s.get("coldfiles", 0) for s in summaries.values()),
         "boundary_resave_comparisons": sum(s.get("boundaries", 0) for s in summaries.values()),
         "cases_written": written_total, "cases_compared_by_driver": driver_total,
         "interleaved_format_exports": sum(s.get("interleaves", 0) for s in summaries.values()),
